@@ -275,6 +275,9 @@ func c02bits(p *Program, r *Report, rule string) {
 			if len(wb) < 1 {
 				return "NO-BYTE"
 			}
+			if keyIs(wb[0].Args[1], "convert:byte(param:h.opcode)") {
+				return "0x00|opcode"
+			}
 			e, ok := wb[0].Args[1].(*Expr)
 			if !ok || e.Op != "binop" || e.Name != "|" {
 				return "BYTE0=" + wb[0].Args[1].Key()
@@ -696,7 +699,7 @@ func c02rsv(p *Program, r *Report, rule string) {
 				}
 				neg, ok1 := decidedLike(pa, "Conn.copts == nil")
 				cont, ok2 := decidedLike(pa, "msgWriter.opcode == 0")
-				thr, ok3 := decidedLike(pa, "len(param:p) >= Conn.flateThreshold")
+				thr, ok3 := decidedRel(pa, "len(param:p)", ">=", "Conn.flateThreshold")
 				if ok1 && !neg && ok2 && !cont && ok3 && thr {
 					return true, ""
 				}
